@@ -6,6 +6,7 @@ import (
 	"encoding/json"
 	"fmt"
 	"os"
+	"os/exec"
 	"os/signal"
 	"strconv"
 	"syscall"
@@ -20,6 +21,15 @@ func main() {
 	case "exit":
 		n, _ := strconv.Atoi(os.Args[2])
 		fmt.Println("ran")
+		os.Exit(n)
+	case "linger":
+		// exit with status N at once but leave a child behind that keeps our stdout/stderr open for 3 s
+		n, _ := strconv.Atoi(os.Args[2])
+		fmt.Println("ran")
+		c := exec.Command("sleep", "3")
+		c.Stdout = os.Stdout
+		c.Stderr = os.Stderr
+		c.Start()
 		os.Exit(n)
 	case "signal":
 		n, _ := strconv.Atoi(os.Args[2])
